@@ -187,7 +187,12 @@ def check_property(prop, tier, repo, cfg, seed):
         companion_infos.append(info)
         if cr["status"] == "witness":
             # only witnesses of this property's kind count (a companion file serves several properties)
-            ws = [w for w in cr["witnesses"] if ('"kind":"%s"' % prop) in w] or cr["witnesses"]
+            ws = [w for w in cr["witnesses"] if ('"kind":"%s"' % prop) in w]
+            if not ws:
+                # witnesses tagged with ANOTHER claimed property are that property's business (its own check reports them)
+                ws = [w for w in cr["witnesses"] if not any(('"kind":"%s"' % q) in w for q in cfg["properties"] if q != prop)]
+            if not ws:
+                continue
             w = ws[0]
             attached = False
             for r in trouble:
